@@ -1,10 +1,10 @@
 ID = 'C11'
 TITLE = 'FIMO p-value tables are the exact tail distribution of the discretised score'
-CONTRACT_MODULES = []
-FUNCTIONS = []
+CONTRACT_MODULES = ['contracts.fimo_c']
+FUNCTIONS = ['tangermeme.tools.fimo._pwm_to_mapping']
 BOUNDED = 'bounded.C11'
 BOUNDED_BUDGET = {'quick': 60, 'thorough': 600}
 LEVEL = 'other'
-EXPLANATION = 'bounded stand-in only so far: exact big-integer tail distribution oracle, brute-force 4^w enumeration for w<=7'
-ASSUMPTIONS = ['floats as reals in the oracle comparison up to 1e-9']
+EXPLANATION = ('deductive (initialisation only): the table returned by _pwm_to_mapping is written everywhere before it is returned, for every motif length including 1 (ghost init bits on numpy.empty buffers, loop invariants). bounded: exact big-integer tail-distribution oracle (brute force 4^w for w<=7, big-int DP to w=30), NaN / monotone / mass clauses, fimo() p-values')
+ASSUMPTIONS = ['index safety and the value of the convolution are not under contract (bounded only)', 'logaddexp2 assumed to return some extended real at call sites; infinities modelled as one unspecified huge real']
 TRUSTED = []
